@@ -62,6 +62,10 @@ def run(ctx: Ctx) -> None:
                        "result of a test case = timeout flag, exception types by position, covered lines, "
                        "predicate outcomes; test cases that touch the SUT's module global are hidden state and "
                        "exempt from order independence"]
+    # import everything the forked children need once, in the parent
+    import pynguin.generator  # noqa: F401, PLC0415
+    from harness.adapters import procstate, pyn  # noqa: F401, PLC0415
+
     ctx.design("ProcState")
     r = ctx.design("ProcState", "ProcState_asis.cfg", expect_ok=False)
     ctx.notes["design_without_restore_violates"] = sorted({v.name for v in r.violations})
@@ -80,6 +84,7 @@ def run(ctx: Ctx) -> None:
         behs = singles + rest[:300 - len(singles)]
     distinct_tests = sorted({json.dumps(t) for b in behs for t in b["tests"]})
     wd = str(ctx.work / "sut")
+    procstate.preload(wd)
     solo_runs = _fresh_many([({"tests": [json.loads(t)]}, wd, None) for t in distinct_tests])
     solo = {}
     for t, r in zip(distinct_tests, solo_runs):
